@@ -325,3 +325,131 @@ def run_async(rep, tier, setname, what, keep=None):
 def c09(tier, rep):
     run_async(rep, tier, "c09", "async macro")
     rep.set("rule", "gated depth profiles x 6 async macros x gate placements {one per branch-step, two in branch 0, none in branch 0} + awaited handlers; explicit-state search over ALL decision sequences (poll root / poll woken task / release any pending point before or after it was polled / spurious poll), canonical-state pruning cross-checked against the unpruned exploration on the small programs; per state: progress invariant at every quiescent point; per execution: lazy construction, no hang, result and per-branch traces equal the reference; non-trivial program = >= 2 distinct logs")
+
+
+# -------------------------------------------------------------------------------------------------
+import re
+
+F4_RE = re.compile(r"^lazy_branches\(.*?\) transpose_results\(.*?\) custom_joiner\(.*?\) futures_crate_path\(.*?\) (futures_crate_path|custom_joiner|transpose_results|lazy_branches)\(")
+F4_KEY = "options written in the order lazy_branches, transpose_results, custom_joiner, futures_crate_path followed by a fifth option occurrence"
+
+
+def e1_mode(rep, exe, args, prop, label):
+    from . import e1
+
+    out, hang = e1.run(exe, args)
+    if hang:
+        cur = out[-1].get("inputs") if out else []
+        rep.violate("hang | %s" % (cur,), "expansion did not terminate within 20 s on one of the inputs %s" % (cur,), {"inputs": cur, "mode": args})
+        return None
+    d = out[-1]
+    rep.add("evaluations", d.get("expansions", 0))
+    rep.add("inputs", d.get("sequences", d.get("inputs", 0)))
+    rep.add("e1_secs", d.get("secs", 0))
+    for v in d.get("viols", []):
+        if v["what"].startswith("MACHINERY"):
+            raise MachineryError("%s: %s on %s" % (label, v["what"], v["input"]))
+        key = "%s | %s" % (v["input"], v.get("config", ""))
+        if F4_RE.match(v["input"]) and "duplicated option" in v["what"]:
+            key = F4_KEY
+        rep.violate(key, "%s: %s [input `%s`, config %s]" % (label, v["what"], v["input"], v.get("config")), {"input": v["input"], "config": v.get("config"), "what": v["what"], "outcome": v.get("outcome"), "engine": "E1", "mode": args})
+    rep.add("violating_expansions", d.get("nviol", 0))
+    for s in d.get("samples", [])[:3]:
+        rep.sample(s)
+    return d
+
+
+ALL8 = "join,try_join,join_spawn,try_join_spawn,join_async,try_join_async,join_async_spawn,try_join_async_spawn"
+
+
+@check("C15", "exploration")
+def c15(tier, rep):
+    from . import e1
+
+    exe = e1.build()
+    if tier == "quick":
+        runs = [(["c15", "std", 5, "join,try_join"], "21 symbols, length<=5, join/try_join"), (["c15", "full", 3, ALL8], "32 symbols (all operators, and_then, tuple let), length<=3, 8 configs"), (["c15", "opts", 6, "join,try_join_async"], "4 options + x |> , then, length<=6")]
+    else:
+        runs = [(["c15", "std", 6, "join,try_join"], "21 symbols, length<=6, join/try_join"), (["c15", "full", 4, ALL8], "32 symbols, length<=4, 8 configs"), (["c15", "opts", 8, "join,try_join_async"], "4 options + x |> , then, length<=8")]
+    classes = {}
+    for args, label in runs:
+        d = e1_mode(rep, exe, args, "C15", "totality")
+        if d:
+            for c in d["classes"]:
+                k = "%s/%s" % (c["recogniser"], c["outcome"])
+                classes[k] = classes.get(k, 0) + c["n"]
+    rep.set("outcome_classes", classes)
+    rep.set("distinct_nontrivial", sum(v for k, v in classes.items() if not k.startswith("unsure/syn_error")))
+    rep.set("rule", "EVERY sequence over the DSL symbol alphabets (%s), each expanded through join_impl's parse + generate entry points under catch_unwind with a termination watchdog; oracle: outcome is ok-with-syntactically-valid-output, syn error or one of the four documented configuration rejections; a conservative reference recogniser additionally demands rejection of structurally invalid inputs (E1-E7) and acceptance of inputs that fit the confident grammar; distinct_nontrivial = expansions not in the class (recogniser unsure, syn error)" % "; ".join(l for _, l in runs))
+
+
+# -------------------------------------------------------------------------------------------------
+def e1_sharded(rep, exe, args, label, keyf=None):
+    from . import e1
+
+    outs, hang = e1.run_sharded(exe, args)
+    if hang:
+        rep.violate("hang | %s" % (args,), "%s: an expansion did not terminate" % label, {"mode": args})
+        return []
+    for d in outs:
+        rep.add("evaluations", d.get("expansions", 0))
+        for v in d.get("viols", []):
+            key = "%s | %s | %s" % (v.get("input"), v.get("config"), v.get("history"))
+            rep.violate(key, "%s: %s [%s!{ %s }; history %s]" % (label, v["what"], v.get("config"), v.get("input"), v.get("history")), dict(v, engine="E1", mode=args))
+    return outs
+
+
+@check("C20", "model_checking")
+def c20(tier, rep):
+    from . import e1
+    from .common import REPO
+
+    exe = e1.build()
+    which, L = ("core", 3) if tier == "quick" else ("all", 2)
+    outs = e1_sharded(rep, exe, ["c20", "hist", L, which], "purity (histories)")
+    hist = sum(d["histories"] for d in outs)
+    rep.set("histories", hist)
+    rep.set("history_units", outs[0]["units"] if outs else 0)
+    if tier != "quick":
+        outs2 = e1_sharded(rep, exe, ["c20", "hist", 3, "core"], "purity (histories)")
+        hist += sum(d["histories"] for d in outs2)
+        rep.set("histories", hist)
+    exeh = e1.build(hooks=True)
+    pb = 1 if tier == "quick" else 2
+    outs = e1_sharded(rep, exeh, ["c20", "conc", pb, "core"], "purity (concurrent expansions)")
+    rep.set("concurrent_pairs", sum(d["pairs"] for d in outs))
+    rep.set("schedules", sum(d["schedules"] for d in outs))
+    rep.set("states", sum(d["states"] for d in outs) + hist)
+    rep.set("transitions", sum(d["decisions"] for d in outs) + sum(d.get("expansions", 0) for d in outs))
+    rep.set("traces_validated_against_impl", sum(d["schedules"] for d in outs) + hist)
+    rep.set("yield_points_per_execution", max([d["yield_points_per_execution"] for d in outs] or [0]))
+    rep.set("preemption_bound", pb)
+    if any(d["capped"] for d in outs):
+        rep.exhaustive = False
+    rep.set("distinct_nontrivial", hist + sum(d["schedules"] for d in outs))
+    # assumption check (reported, never judged): hidden state candidates in the sources
+    cands = []
+    for root, _, files in os.walk(os.path.join(REPO, "join_impl", "src")):
+        for f in files:
+            if f.endswith(".rs") and f != "verif_hook.rs":
+                for n, line in enumerate(open(os.path.join(root, f), errors="replace"), 1):
+                    if re.search(r"\b(static\s+(mut\s+)?[A-Z_]+\s*:|thread_local!|lazy_static!|HashMap|HashSet|RandomState)", line) and not line.strip().startswith("//"):
+                        cands.append("%s:%d: %s" % (os.path.relpath(os.path.join(root, f), REPO), n, line.strip()[:120]))
+    rep.set("hidden_state_candidates_in_sources", cands[:20])
+    rep.assumptions.append("interleavings are explored at the granularity of the verif_hooks yield points (every name construction, step/chain generation, parser position); a race confined between two yield points is invisible")
+    rep.set("rule", "histories: EVERY sequence of expansions up to length %d over %s (input, config) units in one process, each output compared with the output of the same invocation as first expansion of a fresh process; interleavings: every ordered pair of core units expanded by two threads under the baton scheduler at the verif_hooks yield points, all schedules with <= %d preemptions, each thread's output compared with its sequential baseline" % (L, which, pb))
+    rep.sample({"unit": "join!{ a |> f ?? g => h }", "baseline": "fresh child process"})
+
+
+@check("C14", "exploration")
+def c14(tier, rep):
+    from . import e1
+
+    exe = e1.build()
+    L = 3 if tier == "quick" else 4
+    d = e1_mode(rep, exe, ["c14", L, "abc"], "C14", "split points")
+    if d:
+        rep.set("per_family", d["per_part"])
+        rep.set("operands_excluded_by_premise", d["operands_excluded_by_premise"])
+        rep.set("distinct_nontrivial", d["inputs"])
+    rep.set("rule", "A: EVERY chain over the 70 operator instances (22 spellings, typed =>[] / <->, <<<, each with/without ~, 10 wrapper forms) with wrappers balanced per step, length <= %d, operands = unique markers, rendered spaced and glued; B: 44 adversarial expression operands, 8 type operands, 5 member operands (closure return types, turbofish commas, generic closers, look-alikes in delimiters / macro calls / literals, comparisons and shifts) x every operand position of every operator x every following operator instance x deferred, also as initial value, let value and handler expression; C: 1-3 branches x handler at every position x let subsets x trailing comma; oracle: parsed structure (combinator, deferred, wrap/unwrap, operand tokens, let ident, branch count, handler) equals the structure the input was rendered from; an operand is admitted only if an independent premise check finds no top-level split point" % L)
